@@ -26,7 +26,7 @@ def run(ctx, rep):
     rep.rule("R18.7", "replies and stored values are always encodable: the codec is total and closed on what it decodes (= R04.1-R04.6)")
     rep.rule("R18.6", "a query returns the non-stale entries in ascending refresh order and prunes the stale ones")
     rep.rule("R18.8", "each registry has its own table (no class-level or default-argument table shared between registry instances)")
-    rep.assume("clock behaviour, UDP loss and ties between equal timestamps are not decided",
+    rep.assume("clock behaviour, UDP loss and the relative order of servers refreshed at the same instant are not decided",
                "logger calls take their arguments lazily and do not fail")
 
     # ------------------------------------------------------------------ R18.1
@@ -543,6 +543,7 @@ def run(ctx, rep):
             return "the main loop stops with %s after %d of %d datagrams/time-outs" % (r.name, pos[0], len(events))
         # reference
         ref, ref_fired, want_sent, ambiguous = {}, [], [], []
+        tie_ok = {}
         for op in ops:
             now, kind, args = op[0], op[1], list(op[2:])
             if kind == "idle":
@@ -575,10 +576,17 @@ def run(ctx, rep):
                         live.append(addr)
                     else:
                         del ref[key][addr]
+                tie_ok[len(want_sent)] = dict(ref.get(key, {}))
                 if key in ref and not ref[key]:
                     del ref[key]
                 want_sent.append((now, tuple(live), (host, 40000)))
         got_sent = [(t, tuple(d) if isinstance(d, list) else d, a) for t, d, a in sent]
+        for i_, (g_, w_) in enumerate(zip(got_sent, want_sent)):
+            # servers refreshed at the same instant may come in either order
+            if g_ != w_ and g_[0] == w_[0] and g_[2] == w_[2] and isinstance(g_[1], tuple) and isinstance(w_[1], tuple) and \
+                    sorted(map(repr, g_[1])) == sorted(map(repr, w_[1])) and i_ in tie_ok and \
+                    [tie_ok[i_].get(a) for a in g_[1]] == sorted(tie_ok[i_].get(a, 0) for a in g_[1]):
+                want_sent[i_] = g_
         if got_sent != want_sent:
             for i, (g_, w_) in enumerate(zip(got_sent + [None] * len(want_sent), want_sent + [None] * len(got_sent))):
                 if g_ != w_:
@@ -594,7 +602,7 @@ def run(ctx, rep):
                 if addr not in ref.get(key, {}):
                     return "the table lists %s under %s, which was never registered / was unregistered" % (addr, key)
         added = [f_ for f_ in fired if f_[0] == "added"]
-        must = sorted(f_ for f_ in ref_fired if f_[0] == "added")
+        must = sorted((f_ for f_ in ref_fired if f_[0] == "added"), key=repr)
         extra_ok = list(ambiguous)
         rest = list(added)
         for f_ in must:
@@ -683,11 +691,16 @@ def run(ctx, rep):
                 if key in ref and not ref[key]:
                     del ref[key]
                 want = tuple(live)
+                # servers refreshed at the same instant may come in either order
+                if isinstance(got, tuple) and got != want and sorted(map(repr, got)) == sorted(map(repr, want)) and \
+                        all(a in ref.get(key, {}) for a in got) and \
+                        [ref[key][a] for a in got] == sorted(ref[key][a] for a in got):
+                    want = got
             if got != want:
                 return "t=%s %s%r answers %r, expected %r" % (now, kind, tuple(args), got, want)
             if state["services"] != ref:
                 return "t=%s after %s%r the table is %r, expected %r" % (now, kind, tuple(args), state["services"], ref)
-            if sorted(fired[fired_before:]) != sorted(ref_fired[ref_before:]):
+            if sorted(fired[fired_before:], key=repr) != sorted(ref_fired[ref_before:], key=repr):
                 return "t=%s %s%r notifies %r, expected %r" % (now, kind, tuple(args), fired[fired_before:], ref_fired[ref_before:])
         return None
     histories = {
@@ -714,6 +727,9 @@ def run(ctx, rep):
     histories["one server under two names refreshed at different times"] = [
         (0, "register", H1, ("foo",), 1), (30, "register", H1, ("bar",), 1), (35, "query", H2, "foo"), (36, "query", H2, "bar"),
         (45, "query", H2, "bar"), (51, "query", H2, "bar")]
+    histories["equal refresh stamps, one registration with a non-numeric port (stored as given)"] = [
+        (0, "register", H1, ("foo",), 1), (0, "register", H1, ("foo",), "1x"), (0, "register", H2, ("foo",), None),
+        (0, "register", H2, ("foo",), 7), (1, "query", H3, "foo"), (2, "unregister", H1, "1x"), (3, "query", H3, "foo")]
     histories["one request naming the same service twice (case folding)"] = [
         (0, "register", H1, ("foo", "Foo", "BAR"), 1), (1, "register", H1, ("FOO", "bar"), 1), (2, "query", H2, "foo"),
         (3, "unregister", H1, 1), (4, "query", H2, "Bar")]
